@@ -9,21 +9,37 @@
    wrap64 (a + b), time.Since(t) as since t now, >= as Z.leb with the operands
    swapped, a once-defined local replaced by its definition, the mapping of
    fields and configuration variables to projections of Sess.rec / Sess.cfg).
-   gen_addDurations wraps as Go does; the model saturates; dur_cfg (both
-   durations in 0..MaxInt64) is where they agree. *)
-From Sessions Require Import Model.Base Model.Sess Gen.PureFn Proofs.PureFnEquiv.
+   Several time.Since calls inside one function are translated with ONE `now`:
+   the model's request reads the clock once (in Go successive readings differ
+   by the nanoseconds between them). Go's int is taken as 64-bit.
+   gen_addDurations wraps as Go does; the model saturates; they agree on int64
+   durations that are not both negative (dur_cfg). The session theorems assume
+   RotateLaws3.cfg_ok (0 <= grace, idexpiry <= MaxInt64); with the int64 range
+   of the two variables that implies dur_cfg (C03P_cfg_ok_dur_cfg), so the
+   theorems below apply wherever those do; a configuration with both durations
+   negative is outside cfg_ok, and there Go and the model do differ
+   (C03P_addDurations_differs_negative). *)
+From Sessions Require Import Model.Base Model.Sess Gen.PureFn Proofs.RotateLaws3 Proofs.PureFnEquiv.
 Local Open Scope Z_scope.
 
 Theorem C03P_dur_cfg : forall c,
-  dur_cfg c <-> (0 <= c_idexpiry c <= max64 /\ 0 <= c_grace c <= max64).
+  dur_cfg c <->
+  ((min64 <= c_idexpiry c <= max64 /\ min64 <= c_grace c <= max64) /\
+   (0 <= c_idexpiry c \/ 0 <= c_grace c)).
 Proof. intro c. reflexivity. Qed.
 
-(* addDurations (session.go) is the model's saturating sum on non-negative durations ... *)
+Theorem C03P_cfg_ok_dur_cfg : forall c,
+  cfg_ok c -> min64 <= c_idexpiry c -> c_grace c <= max64 -> dur_cfg c.
+Proof. exact cfg_ok_dur_cfg. Qed.
+
+(* addDurations (session.go) is the model's saturating sum on int64 durations
+   of which at least one is non-negative ... *)
 Theorem C03P_addDurations : forall a b,
-  0 <= a <= max64 -> 0 <= b <= max64 -> gen_addDurations a b = sat_add a b.
+  min64 <= a <= max64 -> min64 <= b <= max64 -> 0 <= a \/ 0 <= b ->
+  gen_addDurations a b = sat_add a b.
 Proof. exact gen_addDurations_sat. Qed.
 
-(* ... and not on negative ones: the Go code wraps, the model saturates *)
+(* ... and not when both are negative: the Go code wraps, the model saturates *)
 Theorem C03P_addDurations_differs_negative :
   gen_addDurations (-1) min64 = max64 /\ sat_add (-1) min64 = min64.
 Proof. exact gen_addDurations_differs_negative. Qed.
@@ -74,6 +90,7 @@ Theorem C03P_start_uses_translated : forall s q, dur_cfg (conf s) -> start s q =
 Proof. exact start_uses_gen. Qed.
 
 Print Assumptions C03P_dur_cfg.
+Print Assumptions C03P_cfg_ok_dur_cfg.
 Print Assumptions C03P_addDurations.
 Print Assumptions C03P_addDurations_differs_negative.
 Print Assumptions C03P_Expired.
